@@ -62,7 +62,15 @@ def run(ctx):
         n = rng.choice([2, 2, 3])
         parts = [[["str", rng.choice(comps)], rng.choice([1, 1, 10, 1e-3, 1e-7, 1e5, 0.37, 1e9])] for _ in range(n)]
         add([rng.choice(["mixw", "mixv"]), parts])
+    # the empty formula, before and after totals have been accumulated onto empty formulas in the same interpreter
+    # (32 consecutive items: one for each batch)
     nb = 32
+    while len(items) % nb:
+        add(["none"])
+    for e in (["str", ""], ["iadd", ["str", ""], ["str", "H2O"]], ["iadd", ["none"], ["str", "NaCl"]], ["none"], ["str", ""],
+              ["mixw", [[["str", "H2O@1"], 0], [["str", "NaCl@2.16"], 0]]], ["add", ["str", ""], ["str", "D2O"]]):
+        for _ in range(nb):
+            add(e)
     batches = [items[i::nb] for i in range(nb)]
     outs = forkrun.map_fresh("ptv.formexec", "observe_print", [{"items": b} for b in batches])
     events = []
